@@ -70,6 +70,12 @@ func Strings(long bool) []StrClass {
 		{"jsonish", []byte(`{"a":[1,null]}`), true},
 		{"space", []byte("  \t "), true},
 	}
+	// every control character on its own, between two letters (a short string with ONE byte that needs escaping:
+	// tables of "plain" bytes are compared at every boundary, not only at 0x00 / 0x01 / 0x1f together)
+	for c := 1; c < 0x20; c++ {
+		out = append(out, StrClass{"control-single", []byte("k" + string(rune(c)) + "v"), true})
+	}
+	out = append(out, StrClass{"control-single", []byte("k\x7fv"), true}, StrClass{"control-single", []byte("k\x20v"), true})
 	lens := []int{7, 8, 9, 15, 16, 17, 31, 32, 33, 63, 64, 65}
 	if long {
 		lens = append(lens, 127, 128, 129, 255, 256, 257, 4095, 4096, 4097)
